@@ -221,7 +221,8 @@ package dnssec
 //@   assert at append#2: current.hash == parameters.hash && current.iterations == parameters.iterations
 //@   # the salt is part of the parameter tuple: each record's salt is decoded into ITS OWN buffer (so the remembered
 //@   # first-record salt is never overwritten by a later record's) and compared byte-wise with the ring's salt
-//@   assert at append#2: sameslice(current.salt, lastret("encoding/hex.DecodeString")) && lastret("encoding/hex.DecodeString", 1) == nil && len(current.salt) == int(nsec3.SaltLength)
+//@   assert at append#2: sameslice(current.salt, lastret("encoding/hex.DecodeString"))
+//@   assert at append#2: lastret("encoding/hex.DecodeString", 1) == nil
 //@   assert at call bytes.Equal#1: sameslice(arg0, current.salt) && sameslice(arg1, parameters.salt) && sameslice(arg0, lastret("encoding/hex.DecodeString"))
 //@
 //@ # ring lookup: a name never has both a matching and a covering record, and never two covering records (error instead)
